@@ -82,7 +82,8 @@ DP(score, m, n) ==
 CONSTANTS BacktrackMode,   \* "greedy" (pinned commit) | "table" (repaired)
           ScoreMode        \* "count"  (pinned commit: number of patches)
                            \* "weight" (words carried, then nodes carried)
-                           \* "nodes"  (repaired: nodes carried)
+                           \* "nodes"  (first repair: nodes carried)
+                           \* "nodes2" (current: nodes carried, a subtree without state words counts half)
 
 (* Backtrack of lcs_by_score as built at the pinned commit: a positive     *)
 (* local score is taken as a match without consulting the table.           *)
@@ -108,7 +109,9 @@ Back(score, dp, i, j) == IF BacktrackMode = "greedy" THEN BackGreedy(score, dp, 
 
 (* Weight of carrying a whole subtree: its words first, its nodes second.  *)
 WK == 1000
-Weight(t) == IF ScoreMode = "nodes" THEN NodeCount(t) ELSE WK * Size(t) + NodeCount(t)
+Weight(t) == IF ScoreMode = "nodes" THEN NodeCount(t)
+             ELSE IF ScoreMode = "nodes2" THEN (IF Size(t) = 0 THEN NodeCount(t) ELSE 2 * NodeCount(t))
+             ELSE WK * Size(t) + NodeCount(t)
 
 RECURSIVE SumW(_)
 SumW(S) == IF S = {} THEN 0 ELSE LET x == CHOOSE y \in S : TRUE IN x + SumW(S \ {x})
